@@ -324,6 +324,15 @@ def D34():
         run = run + 1 if v > 1e-6 else 0; worst = max(worst, run)
     return f"max_store_duration=3 h, start level 2: fill level is non-zero for {worst} consecutive hours (levels min {level.min():.2f} max {level.max():.2f})"
 
+@witness
+def D35():
+    tg = grid(); pr = sine(tg)
+    nBC, nC = A.Node('B (C'), A.Node('C')
+    assets = [sc('A', nBC), sc('A (B', nC, min_cap=-1, max_cap=1, extra_costs=.1), A.Transport(name='t', nodes=[nBC, nC], min_cap=0, max_cap=2)]
+    pf = eao.portfolio.Portfolio(assets); op = pf.setup_optim_problem(pr, tg)
+    d = eao.io.extract_output(pf, op, op.optimize(), pr)['dispatch']
+    return f"3 assets on 2 nodes = 4 (asset, node) pairs, dispatch table has {d.shape[1]} columns: {list(d.columns)}"
+
 if __name__ == '__main__':
     which = sys.argv[1:] or list(W)
     for k in which:
